@@ -37,6 +37,10 @@ func TestCheck(t *testing.T) {
 		cs := &css[i]
 		cs.Sc.Fix()
 		results := sysrun.RunCluster(t, cs)
+		if results == nil {
+			run.Count("scenarios", "skipped: synctest bubble froze")
+			continue
+		}
 		for _, res := range results {
 			if env.Replay != "" {
 				t.Logf("instance %d wait=%d\n%s", res.Instance, res.Wait, res.Dump())
